@@ -7,6 +7,8 @@ import CrCube.Driver.Counts
 import CrCube.Model.ColumnIndex
 import CrCube.Spec.ColumnIndexSpec
 import CrCube.Spec.VariancePrims
+import CrCube.Model.Zscore
+import CrCube.Spec.ZscoreSpec
 
 open Lean
 
@@ -134,11 +136,68 @@ def opC11Strand : Handler := fun j => do
           && valsEq mc.cA sc.cA && valsEq mc.bA sc.bA && valsEq mc.cS sc.cS && valsEq mc.bS sc.bS))]))
   pure (Json.arr outs.toArray)
 
+/-! ### C12 -/
+
+/-- split a block-ordered (base…, inserted…) full matrix of cells into the four blocks, apply `f`
+    (shape preserving) to each block, and stitch the results back into one block-ordered matrix -/
+def perBlock {α β : Type} (nbR nbC : Nat) (cells : List (List α))
+    (f : List (List α) → List (List β)) : List (List β) :=
+  let top := cells.take nbR
+  let bot := cells.drop nbR
+  let b00 := f (top.map (·.take nbC))
+  let b01 := f (top.map (·.drop nbC))
+  let b10 := f (bot.map (·.take nbC))
+  let b11 := f (bot.map (·.drop nbC))
+  (List.zipWith (· ++ ·) b00 b01) ++ (List.zipWith (· ++ ·) b10 b11)
+
+def nBase (sides : List Side) : Nat := (sides.filter (fun sd => !sd.inserted)).length
+
+/-- op `c12_model`: {rows, cols, nr, nc, counts: base-block matrix, cells: block-ordered matrix of
+    {np, nn, tb, rb, cb}} ↦ {defective, z, p} (block-ordered matrices of Out terms) -/
+def opC12Model : Handler := fun j => do
+  let rows ← sidesOfJson j "rows"
+  let cols ← sidesOfJson j "cols"
+  let nr ← getNat j "nr"
+  let nc ← getNat j "nc"
+  let counts ← getMat j "counts"
+  let cellRows ← getList (← getField j "cells")
+  let cells ← (cellRows.zip (List.range cellRows.length)).mapM (fun (rj, i) => do
+    let cs ← getList rj
+    (cs.zip (List.range cs.length)).mapM (fun (cj, jx) => do
+      pure (ZCell.ofPrims (rows.getD i default) (cols.getD jx default)
+        (getValD cj "np") (getValD cj "nn") (getValD cj "tb") (getValD cj "rb") (getValD cj "cb"))))
+  let cf := fun i jx => (counts.getD i []).getD jx .nan
+  let dfct := isDefective nr nc cf
+  let z := perBlock (nBase rows) (nBase cols) cells (zBlock dfct)
+  let pv := perBlock (nBase rows) (nBase cols) z pBlock
+  pure (jObj [("defective", Json.bool dfct), ("z", jOutMat z), ("p", jOutMat pv)])
+
+/-- op `c12_spec`: {vars, survey, k, rows, cols, nr, nc} ↦ respondent-level z and p -/
+def opC12Spec : Handler := fun j => do
+  let vars ← varsOfJson (← getField j "vars")
+  let s ← surveyOfJson (← getField j "survey")
+  let k ← getNat j "k"
+  let rows ← sidesOfJson j "rows"
+  let cols ← sidesOfJson j "cols"
+  let nr ← getNat j "nr"
+  let nc ← getNat j "nc"
+  let d ← designOf vars k
+  -- memoised base-count table (same values as `baseCountSpec d s`), so the defective flag is computed once
+  let cm := tab2 nr nc (baseCountSpec d s)
+  let cf := fun i jx => (cm.getD i []).getD jx 0
+  let dfct := tableDefectiveOf nr nc cf
+  let z := rows.map (fun R => cols.map (fun C => zSpecCell dfct d s R C))
+  pure (jObj [("defective", Json.bool dfct),
+              ("z", jOutMat z), ("p", jOutMat (z.map (fun row => row.map pSpec))),
+              ("nan", Json.arr (z.map (fun row => jBools (row.map Out.evalsToNan))).toArray),
+              ("counts", jMat (cm.map (fun row => row.map Val.fin)))])
+
 /-- op `z975`: the model's constant -/
 def opZ975 : Handler := fun _ => pure (valToJson (.fin Z975))
 
 def ops : List (String × Handler) :=
   [("c16_model", opC16Model), ("c16_spec", opC16Spec),
-   ("c11_cells", opC11Cells), ("c11_strand", opC11Strand), ("z975", opZ975)]
+   ("c11_cells", opC11Cells), ("c11_strand", opC11Strand), ("z975", opZ975),
+   ("c12_model", opC12Model), ("c12_spec", opC12Spec)]
 
 end CrCube.Driver.Stats
